@@ -25,7 +25,9 @@ ASSUMPTIONS = ['cells mixing upper-case calls and lower-case calls in one text a
 FLOORS = {'quick': {'evaluations': 300, 'nontrivial': 150, 'counters': {'safety_exceptions_seen': 100, 'innocent_accepted': 20}},
           'thorough': {'evaluations': 6000, 'nontrivial': 3000, 'counters': {'safety_exceptions_seen': 2000, 'innocent_accepted': 400}}}
 
-IDENTS = ['eval', 'exec', 'system', 'open', '__import__', 'getattr', 'foo_bar', 'a1', 'print', 'compile', 'x', 'os_2']
+IDENTS = ['eval', 'exec', 'system', 'open', '__import__', 'getattr', 'foo_bar', 'a1', 'print', 'compile', 'x', 'os_2',
+          # names that END in capitals or digits: the tail of a name is no Excel function
+          'getX', 'evAL', 'run_A', 'loadURL', 'toJSON', 'sha256_B2', 'aB', 'xSUM']
 PREFIX = ['', '', 'os.', 'run ', 'x=', '__builtins__.', '1+', '"', "it's ",
           # brackets of the surrounding prose, closing ones before the first opening one included
           '1) ', ':) then ', 'a) b) ', ') ', '( ', '(( ', '] ) ', 'ok :( ', 'step 2) use ', '}) ', ')))']
